@@ -131,7 +131,9 @@ CWA = dict(
     cover=["return"],
 )
 
-CONTRACTS = [CWA]
+from contracts.C02_alloc import ALLOC_CONTRACTS  # noqa: E402
+
+CONTRACTS = [CWA] + ALLOC_CONTRACTS
 ASSUMPTIONS = ["ceil(client_count / host_count) evaluated under the float rounding model fl(x)=x(1+d), |d|<=2^-53 (client_count <= 2^40, hosts <= 2^20)"]
 NOT_DECIDED = []
 TRUSTED = []
